@@ -35,7 +35,8 @@ class C06(Check):
             'sign, f/0.6 .. f/10), ellipsoid and hyperboloid mirrors between their geometric foci, plano-hyperbolic singlet '
             '(k=-n^2, n in [1.3,4]), spherical surface imaging its centre of curvature, aplanatic points of a sphere; EPD up '
             'to 95% of the geometric limit; hexapolar(6)+rim pupil points; the lens built directly or built detuned and '
-            'brought to the closed form with set_radius/set_conic/set_index/set_thickness; PSF grids even and odd. Oracle: image point and equal optical path known '
+            'brought to the closed form with set_radius/set_conic/set_index/set_thickness (after having been traced once), '
+            'or built at another size and brought there with scale_system(); PSF grids even and odd. Oracle: image point and equal optical path known '
             'in closed form; wavefront error and Strehl of the real-image families. Non-trivial: marginal ray incidence '
             '> 10 deg (a fast system). Distinct = distinct parameter hashes.')
     assumptions = ['virtual-image configurations use the back-projected rays and skip the wavefront/PSF clauses',
@@ -50,7 +51,8 @@ class C06(Check):
                                           wl=f(0.45, 0.7), psf=st.booleans(),
                                           grid=st.sampled_from([(64, 256), (64, 256), (48, 129), (32, 127), (64, 255), (50, 200),
                                                                 (33, 128)]),
-                                          via=st.sampled_from(['build', 'build', 'setters'])))
+                                          via=st.sampled_from(['build', 'build', 'setters', 'setters', 'scaled']),
+                                          detune=st.sampled_from(['all', 'conic', 'radius', 'index', 'thickness'])))
 
     # ------------------------------------------------------------------
     def check(self, case, out):
@@ -116,20 +118,44 @@ class C06(Check):
     def construct(self, case, sp, out):
         """the lens of the closed form, built directly or built detuned and brought to the closed form with the
         public setters (set_radius / set_conic / set_index / set_thickness)"""
+        if case.get('via', 'build') == 'scaled':
+            # built at another size and brought to the closed form with scale_system()
+            out.cls('reached_through_scale_system')
+            sc = case['b'] if case['sign'] > 0 else 1.0 / case['b']
+            d = copy.deepcopy(sp)
+            for q in d['surfs']:
+                if q['R'] != 'inf':
+                    q['R'] = q['R'] / sc
+                q['t'] = q['t'] / sc
+            if d['obj']['t'] != 'inf':
+                d['obj']['t'] = d['obj']['t'] / sc
+            d['ap']['value'] = d['ap']['value'] / sc
+            o = build(d)
+            o.scale_system(sc)
+            return o
         if case.get('via', 'build') != 'setters':
             return build(sp)
         out.cls('reached_through_setters')
         d = copy.deepcopy(sp)
+        what = case.get('detune', 'all')          # which quantities start detuned (one kind alone, or all of them)
+        out.cls('detuned_' + what)
         for q in d['surfs']:
             if q['R'] != 'inf':
-                q['R'] = q['R'] * 1.13
-                q['k'] = q['k'] + 0.21
-            q['t'] = q['t'] * 0.9
-            if q['mat'].get('kind') == 'ideal':
+                if what in ('all', 'radius'):
+                    q['R'] = q['R'] * 1.13
+                if what in ('all', 'conic'):
+                    q['k'] = q['k'] + 0.21
+            if what in ('all', 'thickness'):
+                q['t'] = q['t'] * 0.9
+            if q['mat'].get('kind') == 'ideal' and what in ('all', 'index'):
                 q['mat'] = glass(q['mat']['n'] * 1.07)
-        if d['obj']['t'] != 'inf':
+        if d['obj']['t'] != 'inf' and what in ('all', 'thickness'):
             d['obj']['t'] = d['obj']['t'] * 1.2
         o = build(d)
+        # the detuned lens is used once (traced, paraxial data read) before it is edited
+        px, py = pupil_points()
+        o.trace_generic(np.zeros_like(px), np.zeros_like(px), 0.3 * px, 0.3 * py, d['wls'][0])
+        o.paraxial.f2()
         for k, q in enumerate(sp['surfs'], start=1):
             if q['R'] != 'inf':
                 o.set_radius(q['R'], k)
